@@ -5,7 +5,12 @@ C06 — Hidden-surface removal is independent of submission order.
   `Retro.Props.C06.Buffer` : the lift to whole framebuffers, triangle lists and `render` calls
                              (rasterize_pix2, rasterizeAll_pix, drawTris_pix, drawTris_append,
                              drawTris_perm_pixel, drawTris_perm, target_ext, render_perm, render_split)
+  `Retro.Props.C06.Painter`, `Retro.Props.C06.PainterScene` : the depth sort really sorts (`depthSorted_backToFront_sorted`),
+                             depth-disjoint triangles come out farthest first (`backToFront_far_first`), and for scenes
+                             that need no clipping painter = z-buffer as whole `render` calls
+                             (`render_painter_unclipped_partial`)
 -/
 import Retro.Props.C06.Pixel
 import Retro.Props.C06.Buffer
 import Retro.Props.C06.Painter
+import Retro.Props.C06.PainterScene
